@@ -142,6 +142,12 @@ func buildC07(tier string, seed int64) *Family {
 	for _, x := range ex {
 		insts = append(insts, valueInst(x, cfg))
 	}
+	// elements with two attributes: an existential comparison over @* stops at the first
+	// match and leaves the attribute cursor half-way for the next candidate
+	acfg := docCfg{N: 3, A: 2, Names: "a,b", Pool: ",1,2"}
+	for _, x := range []string{"//*[@* = 1]", "*[@* = '1']", "count(*[@* < 2])", "//*[1 = @*]", "//*[@* != 1]", "//*[2 > @*]", "count(//*[@* = @a])", "//*[@* = 1 or @b = 2]", "@* = 1", "@* = @*", "*/@* <= 1"} {
+		insts = append(insts, valueInst(x, acfg))
+	}
 	return &Family{
 		Instances: withValueReuse(dedupInst(insts), 2),
 		Canaries: []*vm.Instance{
